@@ -1262,6 +1262,36 @@ func runHistory(run *vlib.Run, i int, fixed *fixedPlan) {
 			h.queries = append(h.queries, q)
 			h.byID[q.id] = q
 		}
+		if !reuse && r.Intn(4) == 0 {
+			// several queries of one subscriber with the same SQL text whose time
+			// arguments are distinct instants within one second (a microsecond, a
+			// quarter, almost a whole second apart) or one instant in two locations.
+			// The rows hold whole seconds, so only the first of them can match.
+			table, col := "wides", "at"
+			if r.Intn(3) == 0 {
+				table, col = "pairs", "when"
+			}
+			base := times[r.Intn(len(times))]
+			instants := []time.Time{base, base.Add(time.Microsecond), base.Add(250 * time.Millisecond), base.Add(999999 * time.Microsecond), base.In(otherZone)}
+			r.Shuffle(len(instants), func(a, b int) { instants[a], instants[b] = instants[b], instants[a] })
+			for _, ts := range instants[:2+r.Intn(3)] {
+				fd := filterDesc{filter: sqlgen.Filter{col: ts}, reps: map[string]string{col: "time-subsecond"}}
+				if r.Intn(3) == 0 {
+					p := ts
+					fd.filter[col] = &p
+				}
+				if seen[table+fd.String()] {
+					continue
+				}
+				seen[table+fd.String()] = true
+				qid++
+				q := &liveQuery{id: qid, table: table, fd: fd}
+				qs = append(qs, q)
+				h.queries = append(h.queries, q)
+				h.byID[q.id] = q
+			}
+			run.Count("rerunners_with_subsecond_time_arguments", 1)
+		}
 		perRerunner = append(perRerunner, qs)
 	}
 	if reorderTable != "" {
